@@ -88,12 +88,16 @@ func (r *Response) sendBackResponse(
 			return
 		}
 
-		// a registered consumer url may already carry a query
+		// a registered consumer url may already carry a query; a fragment has to stay behind the query
+		target, fragment := r.AcsUrl, ""
+		if i := strings.Index(target, "#"); i >= 0 {
+			target, fragment = target[:i], target[i:]
+		}
 		separator := "?"
-		if strings.Contains(r.AcsUrl, "?") {
+		if strings.Contains(target, "?") {
 			separator = "&"
 		}
-		http.Redirect(w, req, r.AcsUrl+separator+BuildRedirectQuery(string(respData), r.RelayState, r.SigAlg, r.Signature), http.StatusFound)
+		http.Redirect(w, req, target+separator+BuildRedirectQuery(string(respData), r.RelayState, r.SigAlg, r.Signature)+fragment, http.StatusFound)
 		return
 	default:
 		// no supported binding to reach the consumer with: answer in the body instead of sending nothing
